@@ -765,8 +765,14 @@ fn run_in_runtime(p: Prog, m: Arc<Mon>) {
     let dt = if p.driver == "poll" { DriverType::Poll } else { DriverType::IoUring };
     let mut pb = ProactorBuilder::new();
     pb.driver_type(dt);
-    // pool threads of finished cases should not pile up
-    pb.thread_pool_recv_timeout(Duration::from_millis(200));
+    // One blocking pool for all cases of this process (threads are reused instead of piling up).
+    // Do NOT shorten the pool's receive timeout instead: AsyncifyPool::dispatch spawns a worker and then
+    // does a blocking rendezvous send; if the worker's recv_timeout expires before the dispatcher thread
+    // gets to the send (loaded machine), that send waits forever (seen once with 200 ms; C17's topic).
+    static POOL: std::sync::OnceLock<compio_driver::AsyncifyPool> = std::sync::OnceLock::new();
+    pb.reuse_thread_pool(
+        POOL.get_or_init(|| compio_driver::AsyncifyPool::new(256, Duration::from_secs(60))).clone(),
+    );
     let mut b = RuntimeBuilder::new();
     b.with_proactor(pb);
     let rt = match b.build() {
